@@ -1196,6 +1196,40 @@ fn maturity_sweep(ctx: &Ctx, nm: &Names, states: &[SState], alpha: &[SOp], cfg: 
         .sum()
 }
 
+/// For C01: staking sudo calls that are refused (a slash fraction above one, an unknown validator)
+/// in every staking state of a small exploration, with time having passed since the last reward
+/// settlement; a refused call must leave every byte of the chain state as it was. Returns the
+/// number of refused calls checked.
+pub fn rejected_sudo_sweep(ctx: &Ctx, depth: usize) -> u64 {
+    let nm = names();
+    let quiet = Ctx::new("C16", ctx.tier);
+    let cfg = Cfg { check_rewards: false, prop: "C16".into(), funds: 10, unbonding: UNBONDING, payout_is_home: false, apr_pct: APR_PCT };
+    let alpha = alphabet_c16();
+    let out = explore(&quiet, &nm, &alpha, depth, &cfg, true, 200_000);
+    let bad = [SOp::Slash { v: 0, pct: 150 }, SOp::Slash { v: 1, pct: 101 }, SOp::Slash { v: 2, pct: 50 }];
+    let mut all_ops = alpha.clone();
+    all_ops.extend(bad.iter().cloned());
+    out.all
+        .par_chunks(32)
+        .map(|ch| {
+            let mut app = build(&nm, &cfg);
+            let mut n = 0u64;
+            for s in ch {
+                for op in &bad {
+                    let mut rep = |class: &str, detail: Value| {
+                        if class.starts_with("rejected-operation-changed-state") {
+                            ctx.violation("c01:StateOnErr:staking-sudo", json!({"engine": "staking", "what": "a refused sudo(Staking) call changed the chain state", "detail": detail}));
+                        }
+                    };
+                    let _ = step(&mut app, &nm, s, op, &cfg, &all_ops, &mut rep);
+                    n += 1;
+                }
+            }
+            n
+        })
+        .sum()
+}
+
 pub fn run_c14(ctx: &Ctx) -> i32 {
     let nm = names();
     let cfg = Cfg { check_rewards: false, prop: "C14".into(), funds: 10, unbonding: UNBONDING, payout_is_home: false, apr_pct: APR_PCT };
